@@ -165,8 +165,20 @@ PROPERTIES = {
                            "children are the old ones plus the new rule and whose threshold is their number; receiver untouched "
                            "(frame). bounded stand-in: equality of default priorities, polyhedra and solutions with direct "
                            "construction, sequences of additions, additions after the original was queried."},
-    "C19": {"rt": ["rt.arrays:c19_points"], "level": "other", "assumptions": S_ALL,
-            "explanation": "bounded stand-in only so far"},
-    "C20": {"rt": ["rt.arrays:c20_bridges"], "level": "other", "assumptions": S_ALL,
-            "explanation": "bounded stand-in only so far"},
+    "C19": {"harness_modules": ["contracts.c19"], "harness_filter": only("ge_polyhedron.points"),
+            "rt": ["rt.arrays:c19_points"], "level": "other", "assumptions": S_ALL,
+            "explanation": "deductive, bounded in shape (polyhedra 1x1, 2x2, 3x2; points of shape (c,), (1,c), (2,c), (1,2,c), (2,1,c)) and "
+                           "unbounded in values: ineqs_satisfied / separable / ineq_separate_points (real source on the symbolic "
+                           "ndarray layer) equal the row-by-row definition, output shapes follow the input shape. bounded "
+                           "stand-in: random matrices up to 3x3 and point arrays of rank 1-3 on real numpy."},
+    "C20": {"harness_modules": ["contracts.c19"],
+            "harness_filter": only("variable_ndarray.construct", "variable_ndarray.variable_indices", "boolean_ndarray.to_list",
+                                   "ge_polyhedron.to_linalg"),
+            "rt": ["rt.arrays:c20_bridges"], "level": "other", "assumptions": S_ALL,
+            "explanation": "deductive (symbolic values and bounds, 1-3 variables, every presence pattern and dtype/default mode): "
+                           "construct puts each given value at its id's column, ignores unknown ids and fills with callable "
+                           "result / lower bound (int) / NaN (float); boolean and integer index sets partition the columns by "
+                           "bounds == (0,1); to_list returns exactly the variables at the 1-entries in order (1-D and 2-D); "
+                           "to_linalg / A / b split the support column with matching variables. bounded stand-in: from_list "
+                           "conversions, unicode / integer ids, real numpy."},
 }
